@@ -216,6 +216,16 @@ def imax (bits : Nat) : Int := (2 ^ (bits - 1) : Int) - 1
 @[inline] def rawParts {ε α : Type} (s : List α) (off n : Nat) : Ctl ε (List α) :=
   if off + n ≤ s.length then .val ((s.drop off).take n) else .ub
 
+/-- `k` consecutive chunks of `n` elements -/
+def chunksOf {α : Type} (n : Nat) : Nat → List α → List (List α)
+  | 0, _ => []
+  | k + 1, l => l.take n :: chunksOf n k (l.drop n)
+
+/-- `from_raw_parts(s.as_ptr() as *const [T; N], n)`: the first `n * N` elements viewed as `n` arrays of `N`;
+    undefined behaviour unless they lie inside the slice -/
+@[inline] def rawPartsArrays {ε α : Type} (s : List α) (N n : Nat) : Ctl ε (List (List α)) :=
+  if n * N ≤ s.length then .val (chunksOf N n s) else .ub
+
 /-- `[rem @ .., last]` -/
 @[inline] def unsnoc {α : Type} (s : List α) : Option (List α × α) :=
   match s.getLast? with
